@@ -68,6 +68,17 @@ Definition ok_c07_pair (steps : list hstep) (impl : list iobs) (steps' : list hs
   && all2 iobs_same
        (List.filter (fun i => match i with IRecv o _ _ => negb (is_rejected o) | _ => true end) impl) impl'.
 
+Fixpoint nodup_N (l : list N) : bool :=
+  match l with
+  | [] => true
+  | a :: r => negb (existsb (N.eqb a) r) && nodup_N r
+  end.
+(** [m] is the map denoted by the association list [l] (keys distinct, any order) *)
+Definition map_agrees {V} (eqb : V -> V -> bool) (m : gmap N V) (l : list (N * V)) : bool :=
+  N.eqb (N.of_nat (size m)) (N.of_nat (List.length l))
+  && nodup_N (map fst l)
+  && forallb (fun kv => match m !! fst kv with Some v => eqb v (snd kv) | None => false end) l.
+
 (** ** refinement of the abstract receiver, on the implementation's observations:
     every outcome is the abstract outcome, every persisted span state is the abstract span state *)
 Fixpoint ok_abstract (h : ahist) (steps : list hstep) (impl : list iobs) : bool :=
@@ -77,9 +88,9 @@ Fixpoint ok_abstract (h : ahist) (steps : list hstep) (impl : list iobs) : bool 
       let '(h', o) := ahist_step h s in
       match i, o with
       | IRecv oi _ snp, Some oa =>
-          outcome_eqb oi oa && map_matches span_data_eqb (a_spans (ah_cur h')) (sn_spans snp)
-      | IPersist _ sp _ _ _, None => map_matches span_data_eqb (a_spans (ah_cur h')) sp
-      | IDrop _ _ snp, None => map_matches span_data_eqb (a_spans (ah_cur h')) (sn_spans snp)
+          outcome_eqb oi oa && map_agrees span_data_eqb (a_spans (ah_cur h')) (sn_spans snp)
+      | IPersist _ sp _ _ _, None => map_agrees span_data_eqb (a_spans (ah_cur h')) sp
+      | IDrop _ _ snp, None => map_agrees span_data_eqb (a_spans (ah_cur h')) (sn_spans snp)
       | _, _ => false
       end && ok_abstract h' r ir
   | _, _ => false
